@@ -197,14 +197,19 @@ func (e *Engine) guardObligations(want map[string]bool) ([]*Obligation, error) {
 			return nil, fmt.Errorf("guarded_by: %s is not a struct", g.Type)
 		}
 		fields := map[int]string{}
+		all := len(g.Fields) == 1 && g.Fields[0] == "*"
 		for i := 0; i < u.NumFields(); i++ {
+			if all {
+				fields[i] = u.Field(i).Name()
+				continue
+			}
 			for _, f := range g.Fields {
 				if u.Field(i).Name() == f {
 					fields[i] = f
 				}
 			}
 		}
-		if len(fields) != len(g.Fields) {
+		if !all && len(fields) != len(g.Fields) {
 			return nil, fmt.Errorf("CONTRACT-STALE guarded_by: some of the fields %v not found in %s", g.Fields, g.Type)
 		}
 		for _, sp := range e.SSAPkgs {
